@@ -56,9 +56,16 @@ class Architecture:
         for config in self.yaml["architecture"]:
             subtrees[config] = self.yaml["architecture"][config].copy()
 
+        visited = set()
         for config in subtrees:
             while subtrees[config]:
                 tree = subtrees[config].pop()
+
+                # A subtree shared through a YAML alias is the same
+                # dictionary: it has already been normalized
+                if id(tree) in visited:
+                    continue
+                visited.add(id(tree))
 
                 if "name" not in tree.keys():
                     raise ValueError("Unnamed subtree: " + repr(tree))
